@@ -698,7 +698,7 @@ func (l *loopState) resolveExpressions(inputData any, dataModel any) (any, error
 	switch expr := inputData.(type) {
 	case expressions.Expression:
 		l.logger.Debugf("Evaluating expression %s...", expr.String())
-		return expr.Evaluate(dataModel, l.callableFunctions, l.workflowContext)
+		return l.evaluateExpression(expr, dataModel)
 	case *infer.OneOfExpression:
 		return l.resolveOneOfExpression(expr, dataModel)
 	case *infer.OptionalExpression:
@@ -815,7 +815,21 @@ func (l *loopState) resolveOptionalExpression(expr *infer.OptionalExpression, da
 	if !dependencyGroupResolved {
 		return nil, nil // It's nil to indicate that the optional field is not present.
 	}
-	return expr.Expr.Evaluate(dataModel, l.callableFunctions, l.workflowContext)
+	return l.evaluateExpression(expr.Expr, dataModel)
+}
+
+// evaluateExpression evaluates an expression against the data model. The expression library panics
+// on some run-time faults (for example an integer division by zero, or a function called with a value
+// of another integer type); those are returned as evaluation errors so they fail the workflow instead
+// of crashing the process.
+func (l *loopState) evaluateExpression(expr expressions.Expression, dataModel any) (result any, err error) {
+	defer func() {
+		if r := recover(); r != nil {
+			result = nil
+			err = fmt.Errorf("failed to evaluate expression %s (%v)", expr.String(), r)
+		}
+	}()
+	return expr.Evaluate(dataModel, l.callableFunctions, l.workflowContext)
 }
 
 // stageChangeHandler is implementing step.StageChangeHandler.
